@@ -54,10 +54,11 @@ CellGrid = Sequence[Sequence]
 def make_metadata_block(cells: CellGrid, origin: Optional[str] = None, **_) -> MetadataBlock:
     mb = MetadataBlock(origin)
     for row in cells:
-        if len(row) > 1 and row[0] is not None:
+        if len(row) > 1 and isinstance(row[0], str):
             key_field = row[0].strip()
             if len(key_field) > 0 and key_field[-1] == ":":
-                mb[key_field[:-1]] = row[1].strip()
+                value = row[1]
+                mb[key_field[:-1]] = "" if value is None else str(value).strip()
     return mb
 
 
@@ -89,9 +90,11 @@ def parse_column_names(column_names_raw: Sequence[Union[str, None]]) -> List[str
     Rejects everything after first blank cell, since there can be comments there.
     Strips column names. 
     """
-    return [
-        c.strip() for c in itertools.takewhile(lambda x: not _is_cell_blank(x), column_names_raw)
-    ]
+    column_names = list(itertools.takewhile(lambda x: not _is_cell_blank(x), column_names_raw))
+    for c in column_names:
+        if not isinstance(c, str):
+            raise ValueError(f"Invalid column name {c!r}: column names must be text")
+    return [c.strip() for c in column_names]
 
 
 def _get_destinations_safely_stripped(input_data: Any) -> str:
@@ -161,6 +164,9 @@ def make_table_json_precursor(cells: CellGrid, origin, fixer:ParseFixer) -> Tupl
         units = [line[1] for line in cells[2 : 2 + n_col]]
     else:
         units = cells[3][:n_col]
+    for unit in units:
+        if not isinstance(unit, str):
+            raise ValueError(f"Invalid table {table_name}: unit {unit!r} is not text")
     units = [unit.strip() for unit in units]
 
     if transposed and not table_is_empty:
